@@ -21,6 +21,7 @@ import (
 	"os"
 	"regexp"
 	"runtime"
+	"sort"
 	"strings"
 	"sync"
 	"time"
@@ -132,6 +133,7 @@ type instState struct {
 	em, nx, er   int
 	cp           int
 	startedAtLog int
+	exitSeq      int
 }
 
 type session struct {
@@ -143,6 +145,7 @@ type session struct {
 	sources map[string]*source
 	srcCond *sync.Cond
 	acks    int
+	exits   int
 	closeFn int
 	cend    bool
 	cendCh  chan struct{}
@@ -198,6 +201,8 @@ func (s *session) apply(ev *Event) {
 	case "SExit":
 		if st := s.inst[ev.I]; st != nil {
 			st.src, st.xk = "exited", ev.M
+			s.exits++
+			st.exitSeq = s.exits
 		}
 	case "CRecv":
 		switch ev.M {
@@ -472,24 +477,36 @@ func (s *session) readLoop() {
 				})
 			}
 		case "complete":
+			// a completion carries only the id; with two operations under one id (duplicate start) the
+			// attribution is a guess - WsTrace therefore lets TLC choose the instance, and the harness
+			// only uses it for per-id counts.  Preference: an operation for which a completion is due.
 			s.logEv(ev, func(ev *Event) {
 				ev.I = "?"
-				first := ""
+				best, bestRank, bestSeq := "", 9, 0
 				for _, i := range s.order {
 					st := s.inst[i]
 					if st.id != ev.ID || st.cp != 0 {
 						continue
 					}
-					if first == "" {
-						first = i
+					rank := 3
+					switch {
+					case st.kind == "bad" && st.er > 0:
+						rank = 0
+					case st.kind == "ok" && st.src == "exited" && (st.xk == "end" || st.xk == "cancel") && st.er == 0:
+						rank = 0
+					case st.kind == "ok" && st.src == "exited" && (st.xk == "panic" || st.xk == "sp") && st.er > 0:
+						rank = 0
+					case st.kind == "ok" && st.src == "exited":
+						rank = 1
+					case st.kind == "bad":
+						rank = 2
 					}
-					if (st.kind == "bad" && st.er > 0) || (st.kind == "ok" && st.src == "exited") {
-						ev.I = i
-						return
+					if rank < bestRank || (rank == bestRank && st.exitSeq < bestSeq) {
+						best, bestRank, bestSeq = i, rank, st.exitSeq
 					}
 				}
-				if first != "" {
-					ev.I = first
+				if best != "" {
+					ev.I = best
 				}
 			})
 		default:
@@ -706,8 +723,22 @@ func obsReached(got Obs, want *Obs) (bool, string) {
 			return false, fmt.Sprintf("%s: source %s/%s/%d want %s/%s/%d", i, gi.Src, gi.Xk, gi.Em, wi.Src, wi.Xk, wi.Em)
 		}
 		// frames written around the close frame may or may not be seen by the client
-		if !want.Cend && (gi.Nx != wi.Nx || gi.Er != wi.Er || gi.Cp != wi.Cp) {
-			return false, fmt.Sprintf("%s: frames next=%d error=%d complete=%d want %d/%d/%d", i, gi.Nx, gi.Er, gi.Cp, wi.Nx, wi.Er, wi.Cp)
+		if !want.Cend && (gi.Nx != wi.Nx || gi.Er != wi.Er) {
+			return false, fmt.Sprintf("%s: frames next=%d error=%d want %d/%d", i, gi.Nx, gi.Er, wi.Nx, wi.Er)
+		}
+	}
+	// completions carry only the id: compared per id (instance names are <id><n>)
+	if !want.Cend {
+		gc, wc := map[string]int{}, map[string]int{}
+		for i, wi := range want.I {
+			id := strings.TrimRight(i, "0123456789")
+			wc[id] += wi.Cp
+			gc[id] += got.I[i].Cp
+		}
+		for id := range wc {
+			if gc[id] != wc[id] {
+				return false, fmt.Sprintf("id %s: frames complete=%d want %d", id, gc[id], wc[id])
+			}
 		}
 	}
 	return true, ""
@@ -854,16 +885,26 @@ func (s *session) finish(gen, confirm time.Duration, res *Result) {
 	ended := func() bool { s.mu.Lock(); defer s.mu.Unlock(); return s.cend }
 	// 1. every operation whose Source ended by itself gets its terminating frame
 	//    (only decidable while the connection stays open)
+	// (conservative because a completion cannot be attributed with certainty when an id was started
+	//  twice: per id, fewer completions than self-ended operations without an error frame)
 	unterminated := func() []string {
 		s.mu.Lock()
 		defer s.mu.Unlock()
-		var out []string
+		need, have := map[string][]string{}, map[string]int{}
 		for _, i := range s.order {
 			st := s.inst[i]
-			if st.src == "exited" && st.xk != "cancel" && st.cp == 0 && st.er == 0 {
-				out = append(out, i)
+			have[st.id] += st.cp
+			if st.src == "exited" && st.xk != "cancel" && st.er == 0 {
+				need[st.id] = append(need[st.id], i)
 			}
 		}
+		var out []string
+		for id, is := range need {
+			if have[id] < len(is) {
+				out = append(out, is[have[id]:]...)
+			}
+		}
+		sort.Strings(out)
 		return out
 	}
 	drained := func() bool { return ended() || len(unterminated()) == 0 }
